@@ -57,6 +57,8 @@ def instances(tier):
     for g in (4, 5):
         for anchor in ("accept", "write", "write_bp"):
             out.append({"kind": "turns", "gen": g, "k": 2 if tier == "quick" else 3, "anchor": anchor, "span": 10 if tier == "quick" else 8})
+        # three messages are held; another one is sent while their flush is held up in drain(): it goes out behind them
+        out.append({"kind": "turns", "gen": g, "k": 1, "anchor": "write_bp", "span": 10, "held": 3})
     # an unencodable message among the held ones does not keep the others from going out
     for g in (4, 5):
         out.append({"kind": "held_unencodable", "gen": g})
@@ -179,11 +181,18 @@ def _turns(ctx, p):
         else:
             rig.net.on_write = lambda conn, data: fire()
         rig.spawn(rig.sock.open_socket())
-        rig.loop.vt_call_at(0.5, lambda: rig.spawn(sender(0)()))      # held while the console refuses
+        n_held = p.get("held", 1)
+        if n_held == 1:
+            rig.loop.vt_call_at(0.5, lambda: rig.spawn(sender(0)()))      # held while the console refuses
+        else:
+            # several held messages (numbered from 10 on so that the later sends keep their numbers 1..k)
+            kinds = kinds + [0, 5, 9, 3, 17, 0, 5, 9, 3, 17]
+            for h in range(n_held):
+                rig.loop.vt_call_at(0.5 + 0.125 * h, (lambda h=h: rig.spawn(sender(0 if h == 0 else 9 + h)())))
         rig.loop.vt_run(9.25)
         detail = {"turns": js, "acceptance_order": list(order), "results": dict(results)}
         ctx.observe("order", list(order))
-        ctx.check(all(results.get(i) == "ok" for i in range(k + 1)), "sends.accepted", detail=detail)
+        ctx.check(all(v == "ok" for v in results.values()) and len(results) == k + n_held, "sends.accepted", detail=detail)
         ctx.check(len(rig.net.conns) == 1 and rig.net.max_open == 1, "sends.wire", detail=dict(detail, conns=len(rig.net.conns)))
         wire = rig.net.conns[0].written() if rig.net.conns else []
         exp = []
